@@ -249,7 +249,7 @@ func Template(t *rapid.T) Case {
 		}
 		return fmt.Sprintf(where, s)
 	}
-	switch rapid.SampledFrom([]string{"typedef-cycle", "uses-cycle", "identity-cycle", "include-cycle", "import-cycle", "cross-module-typedef-cycle", "cross-module-uses-cycle", "absent", "lone-submodule", "bad-augment", "bad-deviation", "duplicates", "numbers", "leafref-union-cycle", "choice-case-oddities", "fan-in", "header-mix", "long-chain", "enum-unions"}).Draw(t, "template") {
+	switch rapid.SampledFrom([]string{"typedef-cycle", "uses-cycle", "identity-cycle", "include-cycle", "import-cycle", "cross-module-typedef-cycle", "cross-module-uses-cycle", "absent", "lone-submodule", "bad-augment", "bad-deviation", "duplicates", "numbers", "leafref-union-cycle", "choice-case-oddities", "fan-in", "header-mix", "long-chain", "enum-unions", "prefix-run"}).Draw(t, "template") {
 	case "typedef-cycle":
 		var b strings.Builder
 		for i := 0; i < n; i++ {
@@ -289,9 +289,14 @@ func Template(t *rapid.T) Case {
 		for i := 0; i < n; i++ {
 			body += fmt.Sprintf("include s%d; ", i)
 		}
-		c.Files = append(c.Files, mod("m", body+"leaf top { type string; }"))
+		// names that no member of the cycle defines: every lookup has to come back empty-handed, however the
+		// includes are followed
+		miss := func(label string, i int) string {
+			return rapid.SampledFrom([]string{"", "", fmt.Sprintf("leaf bad%d { type nosuch; } ", i), fmt.Sprintf("leaf badp%d { type m:nosuch; } ", i), fmt.Sprintf("container cb%d { uses nosuchg; } ", i), fmt.Sprintf("identity ib%d { base nosuch; } ", i), fmt.Sprintf("leaf ir%d { type identityref { base m:nosuch; } } ", i), fmt.Sprintf("typedef tb%d { type union { type nosuch; type string; } } leaf lb%d { type tb%d; } ", i, i, i), fmt.Sprintf("augment \"/m:nosuch\" { leaf ab%d { type string; } } ", i), fmt.Sprintf("leaf lr%d { type leafref { path \"/m:nosuch\"; } } ", i)}).Draw(t, label)
+		}
+		c.Files = append(c.Files, mod("m", body+"leaf top { type string; } "+miss("miss-m", 99)))
 		for i := 0; i < n; i++ {
-			c.Files = append(c.Files, sub(fmt.Sprintf("s%d", i), "m", fmt.Sprintf("include s%d; leaf sl%d { type string; } grouping sg%d { leaf x%d { type string; } } uses sg%d;", cyc(i), i, i, i, cyc(i))))
+			c.Files = append(c.Files, sub(fmt.Sprintf("s%d", i), "m", fmt.Sprintf("include s%d; leaf sl%d { type string; } grouping sg%d { leaf x%d { type string; } } uses sg%d; ", cyc(i), i, i, i, cyc(i))+miss(fmt.Sprintf("miss-%d", i), i)))
 		}
 		c.IgnoreCirc = rapid.Bool().Draw(t, "ignore-circular")
 	case "import-cycle":
@@ -412,6 +417,34 @@ func Template(t *rapid.T) Case {
 		c.Files = append(c.Files, mod("m", fmt.Sprintf("leaf a { type decimal64 { fraction-digits %s; range %s; } } leaf b { type enumeration { enum x { value %s; } enum y; } } leaf c { type bits { bit x { position %s; } bit y; } } leaf-list d { type string { length %s; } min-elements %s; max-elements %s; } list e { key k; leaf k { type string; } min-elements %s; max-elements %s; } leaf f { type uint64 { range \"%s..%s | %s\"; } } leaf g { type int8 { range %s; } default %s; }", q, q, q, q, q, q, q, q, q, v, v, v, q, q)))
 	case "leafref-union-cycle":
 		c.Files = append(c.Files, mod("m", "leaf a { type leafref { path \"../b\"; } } leaf b { type leafref { path \"../a\"; } } leaf c { type leafref { path \"\"; } } leaf d { type leafref; } typedef u { type union; } leaf e { type u; } leaf f { type union { type union { type union { type f; } } } } leaf g { type identityref; } leaf h { type instance-identifier { require-instance maybe; } } leaf i { type enumeration; } leaf j { type bits; } leaf k { type decimal64; }"))
+	case "prefix-run":
+		// several imports under one prefix - of one another or of the module itself - and a name that starts
+		// with a run of that prefix (a:a:a:...:g): wherever a lookup strips a prefix and goes on, the work must
+		// not double with every repetition
+		k := rapid.IntRange(2, 40).Draw(t, "prefix-run-length")
+		run := strings.Repeat("a:", k)
+		copies := rapid.IntRange(1, 3).Draw(t, "imports-per-prefix")
+		use := rapid.SampledFrom([]string{
+			"container c { uses %sg; }",
+			"leaf l { type %st; }",
+			"identity i { base %sj; }",
+			"leaf r { type identityref { base %sj; } }",
+			"augment \"/%sx\" { leaf y { type string; } }",
+			"deviation \"/%sx\" { deviate not-supported; }",
+			"leaf p { type leafref { path \"/%sx\"; } }",
+			"%sext arg;",
+		}).Draw(t, "prefix-run-use")
+		defs := "grouping g { leaf gl { type string; } } typedef t { type string; } identity j; container x { } extension ext { argument a; } "
+		if rapid.IntRange(0, 2).Draw(t, "prefix-run-misses") != 0 {
+			defs = "" // nothing of that name anywhere: every path has to be walked to its end
+		}
+		if rapid.Bool().Draw(t, "self-import") {
+			imps := strings.Repeat("import m { prefix a; } ", copies)
+			c.Files = append(c.Files, mod("m", imps+defs+fmt.Sprintf(use, run)))
+		} else {
+			c.Files = append(c.Files, mod("m", strings.Repeat("import n { prefix a; } ", copies)+defs+fmt.Sprintf(use, run)))
+			c.Files = append(c.Files, mod("n", strings.Repeat("import m { prefix a; } ", copies)+defs))
+		}
 	case "long-chain":
 		// one long chain of definitions, each built on the one before (the work must not grow with the cube
 		// of its length); the text stays below the 64 KiB bound
